@@ -100,7 +100,7 @@ package tacquito
 
 //@ func (a *AuthenStart) Validate() (err error)
 //@   requires a != nil
-//@   ensures[C02,C04] (err == nil) == valid.AuthenStart(*a)
+//@   ensures[C02,C04] (err == nil) == (valid.AuthenStart(*a) && fits.AuthenStart(*a))
 
 //@ func (a *AuthenStart) MarshalBinary() (res []byte, err error)
 //@   requires a != nil
@@ -121,7 +121,7 @@ package tacquito
 
 //@ func (a *AuthenReply) Validate() (err error)
 //@   requires a != nil
-//@   ensures[C02,C04] (err == nil) == valid.AuthenReply(*a)
+//@   ensures[C02,C04] (err == nil) == (valid.AuthenReply(*a) && fits.AuthenReply(*a))
 
 //@ func (a *AuthenReply) MarshalBinary() (res []byte, err error)
 //@   requires a != nil
@@ -142,7 +142,7 @@ package tacquito
 
 //@ func (a *AuthenContinue) Validate() (err error)
 //@   requires a != nil
-//@   ensures[C02,C04] (err == nil) == valid.AuthenContinue(*a)
+//@   ensures[C02,C04] (err == nil) == (valid.AuthenContinue(*a) && fits.AuthenContinue(*a))
 
 //@ func (a *AuthenContinue) MarshalBinary() (res []byte, err error)
 //@   requires a != nil
@@ -167,7 +167,7 @@ package tacquito
 
 //@ func (a *AcctReply) Validate() (err error)
 //@   requires a != nil
-//@   ensures[C02,C04] (err == nil) == valid.AcctReply(*a)
+//@   ensures[C02,C04] (err == nil) == (valid.AcctReply(*a) && fits.AcctReply(*a))
 
 //@ func (a *AcctReply) MarshalBinary() (res []byte, err error)
 //@   requires a != nil
@@ -221,7 +221,7 @@ package tacquito
 
 //@ func (a *AuthorRequest) Validate() (err error)
 //@   requires a != nil
-//@   ensures[C02,C04] (err == nil) == valid.AuthorRequest(*a)
+//@   ensures[C02,C04] (err == nil) == (valid.AuthorRequest(*a) && fits.AuthorRequest(*a))
 //@   loop 2 invariant -1 <= rangeindex && rangeindex < len(a.Args)
 //@   loop 2 invariant forall j int :: 0 <= j && j <= rangeindex ==> validArg(a.Args[j])
 
@@ -284,7 +284,7 @@ package tacquito
 
 //@ func (a *AuthorReply) Validate() (err error)
 //@   requires a != nil
-//@   ensures[C02,C04] (err == nil) == valid.AuthorReply(*a)
+//@   ensures[C02,C04] (err == nil) == (valid.AuthorReply(*a) && fits.AuthorReply(*a))
 //@   loop 2 invariant -1 <= rangeindex && rangeindex < len(a.Args)
 //@   loop 2 invariant forall j int :: 0 <= j && j <= rangeindex ==> validArg(a.Args[j])
 
@@ -351,7 +351,7 @@ package tacquito
 
 //@ func (a *AcctRequest) Validate() (err error)
 //@   requires a != nil
-//@   ensures[C02,C04] (err == nil) == valid.AcctRequest(*a)
+//@   ensures[C02,C04] (err == nil) == (valid.AcctRequest(*a) && fits.AcctRequest(*a))
 //@   loop 2 invariant -1 <= rangeindex && rangeindex < len(a.Args)
 //@   loop 2 invariant forall j int :: 0 <= j && j <= rangeindex ==> validAcctArg(a.Args[j])
 
